@@ -193,7 +193,7 @@ pub fn node_xml(i: usize, n: &Node) -> XEl {
         }
         return e;
     }
-    if n.kind == Kind::Line {
+    if n.kind == Kind::Line && n.p1.is_some() {
         if let (Some(p1), Some(p2)) = (&n.p1, &n.p2) {
             e.set("xy1", point_txt(p1));
             e.set("xy2", point_txt(p2));
@@ -207,6 +207,15 @@ pub fn node_xml(i: usize, n: &Node) -> XEl {
     if n.kind != Kind::Point {
         match &n.size {
             SizeSpec::Abs(w, h, style) => match (n.kind, style % 3) {
+                // a horizontal or vertical line given by its one extent
+                (Kind::Line, _) => {
+                    if *w != 0.0 {
+                        e.set("width", num(*w));
+                    }
+                    if *h != 0.0 {
+                        e.set("height", num(*h));
+                    }
+                }
                 (Kind::Circle, 0) => e.set("r", num(w / 2.0)),
                 (Kind::Ellipse, 0) => {
                     e.set("rx", num(w / 2.0));
@@ -371,7 +380,7 @@ pub fn model(c: &Case) -> (Vec<Option<BBox>>, Vec<usize>, Vec<f64>) {
                     }
                     u
                 }
-                Kind::Line => {
+                Kind::Line if n.p1.is_some() => {
                     for p in [&n.p1, &n.p2].into_iter().flatten() {
                         if let PointSpec::At(r, ..) | PointSpec::Bare(r) = p {
                             dep(r, &depth);
@@ -592,6 +601,15 @@ pub fn build_nodes(picks: &[NPick], id_only: bool) -> Vec<Node> {
                 for j in 0..k {
                     node.kids.push((p.n[0] + j as f64 * p.n[4], p.n[1] + j as f64 * p.n[5], p.n[2], p.n[3]));
                 }
+            }
+            Kind::Line if has_ref && f % 5 == 0 => {
+                // a horizontal / vertical line given by one extent and positioned like any other shape
+                node.size = if f & 0x20 != 0 { SizeSpec::Abs(p.n[2].max(0.5), 0.0, 2) } else { SizeSpec::Abs(0.0, p.n[3].max(0.5), 2) };
+                node.pos = match (f >> 6) % 4 {
+                    0 => PosSpec::Abs(p.n[0], p.n[1]),
+                    1 | 2 => PosSpec::Dir(r0, ['h', 'H', 'v', 'V'][(f >> 8) as usize % 4], if f & 0x400 != 0 { Some(p.n[4]) } else { None }),
+                    _ => PosSpec::Loc { centre: f & 0x800 != 0, r: r0, loc: mk_loc(f >> 12, p.n[4]), off: mk_off(f >> 20, p.n[4], p.n[5]), xyloc: None },
+                };
             }
             Kind::Line => {
                 let mk_pt = |sel: u32, r: Rf, a: f64, b: f64, n: f64| -> PointSpec {
